@@ -196,6 +196,25 @@ func vmCallHook(c *Ctx, rng interface{ Intn(int) int }) func(hr *HistRun, h int6
 		if hr.M.Ref == nil || len(g.Contracts) == 0 {
 			return nil
 		}
+		// a pending (checked, never delivered) transfer must not be visible to read-only calls
+		var pendingSender []byte
+		if st := hr.M.Hist[h]; st != nil {
+			price := bigDec(st.Params.GasPrice)
+			for _, k := range g.All {
+				a := st.Accounts[k.A()]
+				if a == nil || a.Bal.Cmp(new(big.Int).Mul(big.NewInt(int64(st.Params.MinTrxGas)+100000), price)) < 0 {
+					continue
+				}
+				amt := new(big.Int).Div(a.Bal, big.NewInt(3))
+				tx := mkTx(rctypes.TRX_TRANSFER, k.Addr, g.Fresh[0].Addr, a.Nonce, st.Params.MinTrxGas+1, u256big(price), u256big(amt), nil, h*1_000_000+700_000)
+				if _, err := hr.R.CheckTx(signTx(tx, k, g.G.ChainID)); err != nil {
+					return err
+				}
+				pendingSender = k.Addr
+				c.Count("vm_call-with-pending-mempool-tx", 1)
+				break
+			}
+		}
 		for k := 0; k < 6; k++ {
 			to := addrBytes(g.Contracts[rng.Intn(len(g.Contracts))].Addr)
 			from := g.pick(g.All).Addr
@@ -207,6 +226,9 @@ func vmCallHook(c *Ctx, rng interface{ Intn(int) int }) func(hr *HistRun, h int6
 				name, data = "load", callData(2, slot, nil, nil)
 			case 1:
 				name, data = "balances", callData(11, g.pick(g.All).Addr, nil, nil)
+				if pendingSender != nil {
+					name, data = "balances-of-pending-sender", callData(11, pendingSender, nil, nil)
+				}
 			case 2:
 				name, data = "store", callData(1, slot, wordU(uint64(rng.Intn(1000))), nil) // a write: must not persist
 			case 3:
